@@ -233,6 +233,82 @@ pub fn var_disjoint(objs: &[&RObj]) -> bool {
   seen.values().all(|c| *c == 1)
 }
 
+/// The dump records ONE field per child (the tree cursor's); tree-sitter's `child_by_field_id` also finds a
+/// child through a second field name it inherits from a hidden rule.  A rule whose `field` is affected on the
+/// document at hand cannot be represented in the wire format: the case is skipped (and counted).
+pub fn field_view_consistent(nodes: &[N], fid: u16) -> bool {
+  for n in nodes {
+    let ts = n.get_ts_node();
+    if ts.child_count() == 0 {
+      continue;
+    }
+    let mut c = ts.walk();
+    let mut first: Option<usize> = None;
+    if c.goto_first_child() {
+      loop {
+        if c.field_id() == Some(fid) {
+          first = Some(c.node().id());
+          break;
+        }
+        if !c.goto_next_sibling() {
+          break;
+        }
+      }
+    }
+    let real = ts.child_by_field_id(fid).map(|x| x.id());
+    if first != real {
+      return false;
+    }
+  }
+  true
+}
+
+/// at most one child of any node carries the field (the restriction under which C05's reference semantics speaks)
+pub fn field_unique(nodes: &[N], fid: u16) -> bool {
+  for n in nodes {
+    let ts = n.get_ts_node();
+    let mut c = ts.walk();
+    let mut count = 0;
+    if c.goto_first_child() {
+      loop {
+        if c.field_id() == Some(fid) {
+          count += 1;
+        }
+        if !c.goto_next_sibling() {
+          break;
+        }
+      }
+    }
+    if count > 1 {
+      return false;
+    }
+  }
+  true
+}
+
+impl RObj {
+  /// names of the fields used anywhere in the rule object
+  pub fn fields(&self, out: &mut Vec<String>) {
+    for k in &self.keys {
+      match k {
+        RKey::Inside(r) | RKey::Has(r) | RKey::Precedes(r) | RKey::Follows(r) => {
+          if let Some(f) = &r.field {
+            out.push(f.clone());
+          }
+          r.rule.fields(out);
+          if let Stop::Rule(sr) = &r.stop {
+            sr.fields(out);
+          }
+        }
+        RKey::All(rs) | RKey::Any(rs) => rs.iter().for_each(|r| r.fields(out)),
+        RKey::Not(r) => r.fields(out),
+        RKey::Nth { of: Some(r), .. } => r.fields(out),
+        _ => {}
+      }
+    }
+  }
+}
+
 /// what the wire conversion needs from the concrete document
 pub struct DocInfo<'a> {
   pub lang: SupportLang,
@@ -301,6 +377,7 @@ impl RObj {
           let fld = match &r.field {
             None => Val::opt(None),
             Some(f) => match ts.field_id_for_name(f) {
+              Some(id) if !field_view_consistent(d.nodes, id) => return Err(WireErr(format!("field {f} reaches a child through a second field name"))),
               Some(id) => Val::opt(Some(Val::n(id as usize))),
               None => return Err(WireErr(format!("field {f}"))),
             },
